@@ -75,11 +75,11 @@ const (
 // case
 
 type c16Op struct {
-	K string `json:"k"`           // reg | retract | bad | advance | poll | racepoll | reset | restart | srestart | get | settle | inject
+	K string `json:"k"`           // reg | retract | bad | badretract | advance | poll | racepoll | reset | restart | srestart | get | settle | inject
 	S int    `json:"s,omitempty"` // subject index
 	C int    `json:"c,omitempty"` // client index
 	D int    `json:"d,omitempty"` // reg/retract/bad: exp delta (units) · advance: clock delta · get: timestamp selector · reset: repopulation count
-	M string `json:"m,omitempty"` // retract: own|other|unknown|creds|nojti · bad/inject: defect · racepoll: reg|retract
+	M string `json:"m,omitempty"` // retract: own|other|unknown|creds|nojti · bad/badretract/inject: defect · racepoll: reg|retract
 	V bool   `json:"v,omitempty"` // poll: also run the background validate() · reg: submit through client 0 (forwarding)
 }
 
@@ -94,33 +94,51 @@ var c16Defects = []string{"notjwt", "noid", "aud", "noaud", "noexp", "toolong", 
 
 // c16Reasons: the error text a defective registration is expected to be refused with. Evidence only (class counters).
 var c16Reasons = map[string]string{
-	"defect-notjwt":            "only JWT presentations are supported",
-	"defect-noid":              "presentation does not have an ID",
-	"defect-aud":               "aud claim is missing or invalid",
-	"defect-noaud":             "aud claim is missing or invalid",
-	"defect-noexp":             "presentation does not have an expiration",
-	"defect-toolong":           "presentation is valid for too long",
-	"defect-expired":           "presentation verification failed",
-	"defect-outlive":           "presentation is valid longer than the credential(s) it contains",
-	"defect-method":            "DID methods not supported",
-	"defect-surplus":           "presentation does not fulfill Presentation ServiceDefinition",
-	"defect-surplusdup":        "presentation does not fulfill Presentation ServiceDefinition",
-	"defect-missing":           "doesn't match required presentation definition",
-	"defect-missingreg":        "doesn't match required presentation definition",
-	"defect-wrongissuer":       "doesn't match required presentation definition",
-	"defect-forged":            "presentation verification failed",
-	"defect-otherkey":          "presentation verification failed",
-	"defect-tampered":          "presentation verification failed",
-	"defect-foreigncred":       "presentation verification failed",
-	"defect-impersonate":       "presentation verification failed",
-	"defect-credforged":        "presentation verification failed",
-	"defect-duplicate":         "presentation already exists",
-	"retract-nothing":          "retraction presentation refers to a non-existing presentation",
-	"retract-unknown":          "retraction presentation refers to a non-existing presentation",
-	"retract-someone-elses":    "retraction presentation refers to a non-existing presentation",
-	"retract-with-credentials": "retraction presentation must not contain credentials",
-	"retract-without-jti":      "invalid/missing 'retract_jti' claim",
+	"defect-notjwt":             "only JWT presentations are supported",
+	"defect-noid":               "presentation does not have an ID",
+	"defect-aud":                "aud claim is missing or invalid",
+	"defect-noaud":              "aud claim is missing or invalid",
+	"defect-noexp":              "presentation does not have an expiration",
+	"defect-toolong":            "presentation is valid for too long",
+	"defect-expired":            "presentation verification failed",
+	"defect-outlive":            "presentation is valid longer than the credential(s) it contains",
+	"defect-method":             "DID methods not supported",
+	"defect-surplus":            "presentation does not fulfill Presentation ServiceDefinition",
+	"defect-surplusdup":         "presentation does not fulfill Presentation ServiceDefinition",
+	"defect-missing":            "doesn't match required presentation definition",
+	"defect-missingreg":         "doesn't match required presentation definition",
+	"defect-wrongissuer":        "doesn't match required presentation definition",
+	"defect-forged":             "presentation verification failed",
+	"defect-otherkey":           "presentation verification failed",
+	"defect-tampered":           "presentation verification failed",
+	"defect-foreigncred":        "presentation verification failed",
+	"defect-impersonate":        "presentation verification failed",
+	"defect-credforged":         "presentation verification failed",
+	"defect-duplicate":          "presentation already exists",
+	"retract-defect-notjwt":     "only JWT presentations are supported",
+	"retract-defect-noid":       "presentation does not have an ID",
+	"retract-defect-aud":        "aud claim is missing or invalid",
+	"retract-defect-noaud":      "aud claim is missing or invalid",
+	"retract-defect-noexp":      "presentation does not have an expiration",
+	"retract-defect-toolong":    "presentation is valid for too long",
+	"retract-defect-toolong10y": "presentation is valid for too long",
+	"retract-defect-expired":    "presentation verification failed",
+	"retract-defect-method":     "DID methods not supported",
+	"retract-defect-forged":     "presentation verification failed",
+	"retract-defect-tampered":   "presentation verification failed",
+	"retract-defect-otherkey":   "presentation verification failed",
+	"retract-nothing":           "retraction presentation refers to a non-existing presentation",
+	"retract-unknown":           "retraction presentation refers to a non-existing presentation",
+	"retract-someone-elses":     "retraction presentation refers to a non-existing presentation",
+	"retract-with-credentials":  "retraction presentation must not contain credentials",
+	"retract-without-jti":       "invalid/missing 'retract_jti' claim",
 }
+
+// c16RetractDefects: the generic presentation defects, applied to an otherwise valid retraction of the signer's own live entry.
+// A retraction is listed only if it is a verifiable JWT presentation with an id, addressed to the service, with an expiry
+// within the service's maximum validity, signed by a DID of an allowed method that signed an existing entry, without credentials.
+var c16RetractDefects = []string{"notjwt", "noid", "aud", "noaud", "noexp", "toolong", "toolong", "toolong10y", "expired", "method",
+	"forged", "tampered", "otherkey"}
 
 var c16RetractModes = []string{"own", "own", "own", "own", "other", "unknown", "creds", "nojti"}
 
@@ -144,6 +162,7 @@ func c16Gen(t *rapid.T) c16Case {
 		"get", "get",
 		"settle",
 		"inject",
+		"badretract", "badretract", "badretract",
 	}
 	for i := 0; i < n; i++ {
 		k := rapid.SampledFrom(kinds).Draw(t, "k")
@@ -161,6 +180,10 @@ func c16Gen(t *rapid.T) c16Case {
 			op.S = rapid.IntRange(0, c.Subjects-1).Draw(t, "s")
 			op.D = rapid.IntRange(1, 60).Draw(t, "d")
 			op.M = rapid.SampledFrom(c16Defects).Draw(t, "m")
+		case "badretract":
+			op.S = rapid.IntRange(0, c.Subjects-1).Draw(t, "s")
+			op.D = rapid.IntRange(1, 60).Draw(t, "d")
+			op.M = rapid.SampledFrom(c16RetractDefects).Draw(t, "m")
 		case "inject":
 			op.S = rapid.IntRange(0, c.Subjects-1).Draw(t, "s")
 			op.D = rapid.IntRange(1, 60).Draw(t, "d")
@@ -1031,6 +1054,96 @@ func (w *c16World) opBad(s, d int, defect string) {
 	w.register(vp, &c16Entry{id: id, subj: subj, kind: "reg", off: off, vp: vp}, expect, "defect-"+defect, false)
 }
 
+// opBadRetract: subject s retracts its OWN LIVE entry (registering one first if it has none) with a retraction that is
+// correct except for one generic presentation defect. It must be refused, and the entry must stay listed.
+func (w *c16World) opBadRetract(s, d int, defect string) {
+	cur := w.list[s]
+	if cur == nil || cur.kind != "reg" || w.expired(cur) {
+		w.opReg(s, d, false)
+		cur = w.list[s]
+		if cur == nil || cur.kind != "reg" || w.expired(cur) {
+			w.x.Classf("skipped:badretract-%s", defect)
+			return
+		}
+	}
+	signer := c16Subjects[s]
+	off := w.nextOff(s, d)
+	exp := w.at(off)
+	spec := c16VPSpec{signer: signer, aud: []string{c16ServiceID}, exp: &exp,
+		types: []string{"RetractedVerifiablePresentation"}, extra: map[string]interface{}{"retract_jti": cur.id}}
+	var vp vc.VerifiablePresentation
+	var id string
+	switch defect {
+	case "notjwt":
+		holder := signer.did.URI()
+		pid := ssi.MustParseURI(signer.did.String() + "#" + w.nextID("vp"))
+		ld := vc.VerifiablePresentation{
+			Context: []ssi.URI{ssi.MustParseURI("https://www.w3.org/2018/credentials/v1")},
+			ID:      &pid,
+			Type:    []ssi.URI{ssi.MustParseURI("VerifiablePresentation"), ssi.MustParseURI("RetractedVerifiablePresentation")},
+			Holder:  &holder,
+		}
+		b, err := json.Marshal(ld)
+		w.x.NoErr(err, "marshal LD retraction")
+		p, err := vc.ParseVerifiablePresentation(string(b))
+		w.x.NoErr(err, "parse LD retraction")
+		vp, id = *p, pid.String()
+	case "tampered":
+		good, gid := w.buildVP(spec)
+		parts := strings.Split(good.Raw(), ".")
+		payload, err := base64.RawURLEncoding.DecodeString(parts[1])
+		w.x.NoErr(err, "decode payload")
+		mod := strings.Replace(string(payload), `"nonce":"nonce`, `"nonce":"xonce`, 1)
+		if mod == string(payload) {
+			w.x.Fatalf("tamper: nonce not found in %s", payload)
+		}
+		parts[1] = base64.RawURLEncoding.EncodeToString([]byte(mod))
+		p, err := vc.ParseVerifiablePresentation(strings.Join(parts, "."))
+		w.x.NoErr(err, "parse tampered retraction")
+		vp, id = *p, gid
+	default:
+		switch defect {
+		case "noid":
+			spec.noJTI = true
+		case "aud":
+			spec.aud = []string{"some_other_service"}
+		case "noaud":
+			spec.aud = nil
+		case "noexp":
+			spec.exp = nil
+		case "toolong":
+			e := w.base.Add(time.Duration(c16MaxValidity+off*c16Unit) * time.Second)
+			spec.exp = &e
+		case "toolong10y":
+			e := w.base.AddDate(10, 0, 0)
+			spec.exp = &e
+		case "expired":
+			e := w.base.Add(-time.Duration(off*c16Unit) * time.Second)
+			spec.exp = &e
+		case "method":
+			spec.signer = c16KeySubj
+		case "forged":
+			spec.signKey = c16Stranger.key
+		case "otherkey":
+			spec.signKey = c16Subjects[(s+1)%w.c.Subjects].key
+		default:
+			w.x.Fatalf("unknown retraction defect %q", defect)
+		}
+		vp, id = w.buildVP(spec)
+	}
+	w.allOffs[id] = off
+	subj := s
+	if defect == "method" {
+		subj = -1
+	}
+	w.register(vp, &c16Entry{id: id, subj: subj, kind: "retract", off: off, vp: vp}, -1, "retract-defect-"+defect, false)
+	// the entry it tried to retract must still be handed out
+	_, _, _, _ = w.serverGet(context.Background(), 0)
+	if w.list[s] != cur && len(w.x.Violations()) == 0 {
+		w.x.Fatalf("model: refused retraction changed the list")
+	}
+}
+
 // opInject: a faulty/hostile server lists a presentation that does not verify (written through the store, bypassing Register).
 func (w *c16World) opInject(s, d int, defect string) {
 	off := w.nextOff(s, d)
@@ -1336,6 +1449,8 @@ func c16Run(x *h.Ctx, c c16Case) {
 			w.opRetract(op.S, op.D, op.M)
 		case "bad":
 			w.opBad(op.S, op.D, op.M)
+		case "badretract":
+			w.opBadRetract(op.S, op.D, op.M)
 		case "inject":
 			w.opInject(op.S, op.D, op.M)
 		case "advance":
